@@ -89,6 +89,9 @@ func (p *Program) initAllowed(path string) bool {
 		if a == path {
 			return true
 		}
+		if strings.HasSuffix(a, "...") && strings.HasPrefix(path, strings.TrimSuffix(a, "...")) {
+			return true
+		}
 	}
 	return false
 }
@@ -332,6 +335,20 @@ func (w *worker) reportViolation(p *path, kind, label, msg, kf string) {
 // of their imports.
 func (i *interpreter) runInits() {
 	for _, path := range i.prog.opts.InitPkgs {
+		if strings.HasSuffix(path, "...") {
+			pre := strings.TrimSuffix(path, "...")
+			var names []string
+			for _, pk := range i.prog.ssa.AllPackages() {
+				if strings.HasPrefix(pk.Pkg.Path(), pre) {
+					names = append(names, pk.Pkg.Path())
+				}
+			}
+			sort.Strings(names)
+			for _, n := range names {
+				i.runInit(i.prog.ssa.ImportedPackage(n))
+			}
+			continue
+		}
 		pkg := i.prog.ssa.ImportedPackage(path)
 		if pkg == nil {
 			panic(engineError{"init package not found: " + path})
